@@ -85,6 +85,7 @@ pub fn run(out: &mut Out, seed: u64, tier: &str) {
     let mut rng = Rng::new(seed ^ 0x7e7a5);
     let per_kind = if tier == "thorough" { 4000 } else { 400 };
     let mut n_fd = 0usize;
+    let mut n_wide = 0usize;
     let mut worst: f64 = 0.0;
     for (kind, na) in KINDS.iter() {
         for case in 0..per_kind {
@@ -92,6 +93,23 @@ pub fn run(out: &mut Out, seed: u64, tier: &str) {
             let mut x = rand_positions(*na, &mut rng);
             // pair terms are also probed at long range (cut-offs and tails live there)
             if *na == 2 && case % 6 == 5 { let d = rng.range(8.0, 40.0); x[1].x = x[0].x + d * 0.6; x[1].y = x[0].y - d * 0.64; x[1].z = x[0].z + d * 0.48; }
+            // bends, torsions and inversions are also probed with the angle 0-1-2 opened to 172-179 degrees (near-linear
+            // guards and the 1/sin factors live there)
+            let wide = *na >= 3 && case % 8 == 7;
+            if wide {
+                let sub = |a: &Point, b: &Point| [a.x - b.x, a.y - b.y, a.z - b.z];
+                let dot = |a: [f64; 3], b: [f64; 3]| a[0] * b[0] + a[1] * b[1] + a[2] * b[2];
+                let u0 = sub(&x[2], &x[1]); let lu = dot(u0, u0).sqrt(); let u = [u0[0] / lu, u0[1] / lu, u0[2] / lu];
+                let v = sub(&x[0], &x[1]); let r = dot(v, v).sqrt();
+                let vp = [v[0] - dot(v, u) * u[0], v[1] - dot(v, u) * u[1], v[2] - dot(v, u) * u[2]];
+                let lw = dot(vp, vp).sqrt();
+                if lw > 1e-3 {
+                    let d = (180.0 - rng.range(172.0, 179.0)).to_radians();
+                    x[0].x = x[1].x + r * (-d.cos() * u[0] + d.sin() * vp[0] / lw);
+                    x[0].y = x[1].y + r * (-d.cos() * u[1] + d.sin() * vp[1] / lw);
+                    x[0].z = x[1].z + r * (-d.cos() * u[2] + d.sin() * vp[2] / lw);
+                }
+            }
             let desc = TermDesc { kind, idxs: (0..*na).collect(), params: params.clone() };
             let term = make_term(&desc);
             let e = term.energy(&x);
@@ -105,7 +123,10 @@ pub fn run(out: &mut Out, seed: u64, tier: &str) {
 
             // oracle 1: finite differences (only where the geometry is well conditioned and near the origin)
             let near_origin = x.iter().all(|p| p.x.abs() < 10.0);
-            if near_origin && well_conditioned(kind, &params, &x) && g.iter().all(|v| v.is_finite()) {
+            let conditioned = if wide { crate::s_ff::well_conditioned_with(&[TermDesc { kind, idxs: (0..*na).collect(), params: params.clone() }], &x, 0.03) && x.iter().enumerate().all(|(i, p)| (0..i).all(|j| { let q = &x[j]; ((p.x - q.x).powi(2) + (p.y - q.y).powi(2) + (p.z - q.z).powi(2)).sqrt() > 0.5 })) }
+                              else { well_conditioned(kind, &params, &x) };
+            if wide && conditioned { n_wide += 1; }
+            if near_origin && conditioned && g.iter().all(|v| v.is_finite()) {
                 let fd = fd_grad(term.as_ref(), &x, 2e-4);
                 let gmax = g.iter().fold(0.0f64, |m, v| m.max(v.abs())).max(1e-3);
                 let emag = e.abs().max(1.0);
@@ -161,5 +182,6 @@ pub fn run(out: &mut Out, seed: u64, tier: &str) {
         }
     }
     out.stat("fd_checked", n_fd);
+    out.stat("wide_angle_cases_conditioned", n_wide);
     out.stat("fd_worst_relative_error", format!("{:e}", worst));
 }
